@@ -654,7 +654,7 @@ func (t *tokenAwareHostPolicy) Pick(qry ExecutableQuery) NextHost {
 				continue
 			}
 
-			if h.IsUp() {
+			if h.IsUp() && !used[h] {
 				used[h] = true
 				return (*selectedHost)(h)
 			}
@@ -672,7 +672,7 @@ func (t *tokenAwareHostPolicy) Pick(qry ExecutableQuery) NextHost {
 				h := remote[j][k]
 				k++
 
-				if h.IsUp() {
+				if h.IsUp() && !used[h] {
 					used[h] = true
 					return (*selectedHost)(h)
 				}
